@@ -420,7 +420,22 @@ def physical_step(kinds, fixed_names=None, sibling=False):
     def sig(w):
         ents = entries_of(w)
         nlinks = sum(1 for (k, nm, tg) in ents if k == "l")
-        lexical_ok = all(not (tg or "").startswith("/") for (k, nm, tg) in ents)
+
+        def lex_inside(nm, tg):
+            """does the link's target, taken purely lexically from the link's own directory, stay inside the jail?"""
+            if tg.startswith("/"):
+                return False
+            depth = 0
+            for comp in nm.split("/")[:-1] + tg.split("/"):
+                if comp in ("", "."):
+                    continue
+                depth = depth - 1 if comp == ".." else depth + 1
+                if depth < 0:
+                    return False
+            return True
+
+        # the recorded finding is only about links each of which is fine lexically; a link that climbs out by itself is another matter
+        lexical_ok = all(lex_inside(nm, tg) for (k, nm, tg) in ents if k == "l")
         return {"obligation": "physical_step",
                 "class": "followed_links_created_by_earlier_entries" if nlinks >= 1 and lexical_ok else "other"}
 
